@@ -33,6 +33,7 @@ func init() {
 		},
 		NumCases: func(tier string) int { return len(c09Specs(tier)) },
 		Run:      c09Run,
+		Watchdog: 300, // the largest grid programs take tens of seconds under 48 configurations
 		Floors: func(m *Merged, tier string) []string {
 			var u []string
 			if m.C("specs_run") < int64(len(c09Specs(tier))) {
@@ -306,7 +307,7 @@ func c09Specs(tier string) []c09Spec {
 			for d := 1; d <= 40; d++ {
 				nestDepths = append(nestDepths, d)
 			}
-			nestDepths = append(nestDepths, 100, 255, 256, 257, 1000, 5000)
+			nestDepths = append(nestDepths, 100, 255, 256, 257, 1000, 2000)
 		}
 		for _, d := range nestDepths {
 			d := d
